@@ -138,8 +138,16 @@ func (di *DeclInterp) eval(d rdecl, n *idr.Node, pos position) (interface{}, err
 	d = di.resolve(d)
 	switch kindOf(d) {
 	case "const":
+		// (an xpath on a const / external / array comes from the reference site of a template: it anchors
+		// the cursor like any other xpath - no match, no value; several matches, a failure)
+		if c, err := di.single(d, n, pos); err != nil || c == nil {
+			return nil, err
+		}
 		return normalize(d, d["const"].(string))
 	case "external":
+		if c, err := di.single(d, n, pos); err != nil || c == nil {
+			return nil, err
+		}
 		v, ok := di.Externals[d["external"].(string)]
 		if !ok {
 			return nil, fail("external %q not set", d["external"])
@@ -175,6 +183,11 @@ func (di *DeclInterp) eval(d rdecl, n *idr.Node, pos position) (interface{}, err
 		}
 		return normalize(d, obj)
 	case "array":
+		if c, err := di.single(d, n, pos); err != nil || c == nil {
+			return nil, err
+		} else {
+			n = c
+		}
 		var arr []interface{}
 		for _, e := range d["array"].([]interface{}) {
 			ed := di.resolve(e.(rdecl))
